@@ -10,11 +10,30 @@ ENTRY = (r'^server::session::Session::(expire_stale_publish_requests|tick_subscr
 STOP = r'AddressSpace::|::get_attribute|Variable::value|callbacks::'
 
 
-GATE = re.compile(r'^PartialOrd::gt\(&.*signed_duration_since\(\(\*now.*request_header\.timestamp.*\), &Duration::from_millis\((.*)\)\) == True$')
+WRAP = re.compile(r'num_(milli|micro|nano)?seconds\(.*\) as u(8|16|32|64|128|size)')
+
+
+def _gate_of(b, lit):
+    """(elapsed sym, timeout sym) when the literal says elapsed > timeout (or >=), else None"""
+    if lit[0] == 'truth' and lit[1][0] == 'call' and len(lit[1][2]) == 2:
+        short = lit[1][1].rsplit('::', 1)[-1]
+        a, c = lit[1][2]
+        a = a[1] if a[0] == 'ref' else a
+        c = c[1] if c[0] == 'ref' else c
+        if (short in ('gt', 'ge') and lit[2] is True) or (short in ('le', 'lt') and lit[2] is False):
+            return a, c
+        if (short in ('lt', 'le') and lit[2] is True) or (short in ('ge', 'gt') and lit[2] is False):
+            return c, a
+    if lit[0] == 'cmp' and lit[1] in ('gt', 'ge'):
+        return lit[2], lit[3]
+    if lit[0] == 'cmp' and lit[1] in ('lt', 'le'):
+        return lit[3], lit[2]
+    return None
 
 
 def check_timeout_gate(ctx, rule='E2-timeout-gate'):
-    """BadTimeout is produced, and the request dropped from the queue, only under `now - request timestamp > timeout`"""
+    """BadTimeout is produced, and the request dropped from the queue, only under `now - request timestamp > timeout`,
+    where the elapsed time cannot wrap when it is negative and the timeout is the request hint or the server limit"""
     db, r = ctx.db, ctx.r
     bs = db.find_bodies(r'Subscriptions::expire_stale_publish_requests::\{closure#0\}$')
     if not bs:
@@ -33,35 +52,61 @@ def check_timeout_gate(ctx, rule='E2-timeout-gate'):
     if not any(k == 'BadTimeout' for k, _, _ in sites) or not any(k == 'drop-from-queue' for k, _, _ in sites):
         r.lost(rule, 'expire:sites', 'BadTimeout construction / `false` result not found in the retain closure'); return
     n = 0
+    timeouts = set()
     for kind, bi, si in sites:
         n += 1
         key = 'expire:%s#%d' % (kind, n)
         hit = None
         for lit, e in F.literals_at(bi, si):
-            m = GATE.match(fmt_lit(b, lit))
-            if m:
-                hit = (lit, m.group(1)); break
+            g = _gate_of(b, lit)
+            if not g:
+                continue
+            el, to = fmt_sym(b, g[0]), fmt_sym(b, g[1])
+            if 'now' in el and 'request_header.timestamp' in el and 'now' not in to:
+                hit = (lit, g, el, to); break
         if not hit:
-            r.fail(rule, key, '%s is not dominated by `now.signed_duration_since(request timestamp) > timeout`: a queued publish request '
+            r.fail(rule, key, '%s is not dominated by a comparison `time since the request timestamp > timeout`: a queued publish request '
                    'could be answered BadTimeout before its timeout elapsed' % kind, loc=b.loc)
             continue
+        if WRAP.search(hit[2]):
+            r.fail(rule, key, '%s: the elapsed time is a signed duration cast to an unsigned integer (%s): a request timestamp ahead of the '
+                   'server clock wraps to a huge elapsed time and the request is timed out at once' % (kind, hit[2][:120]), loc=b.loc)
+            continue
+        timeouts.add(hit[1][1])
         r.ok(rule, key, '%s only under `%s`' % (kind, fmt_lit(b, hit[0])[:160]), loc=b.loc)
     # the timeout operand: every definition is the request's timeout hint or the server's publish request timeout
     srcs = []
-    for bi, blk in enumerate(b.blocks):
-        t = blk['t']
-        if t[0] == 'call' and t[1][0] == 'fn' and t[1][1].endswith('Duration::from_millis'):
-            a = t[2][0]
-            if a[0] in ('mv', 'cp') and not a[1][1]:
-                for d in b.defs().get(a[1][0], []):
-                    if d[0] == 'stmt':
-                        srcs.append(fmt_sym(b, F.sym_rvalue(d[3], 0, d[1])))
-                    else:
-                        srcs.append(str(d[0]))
+    def defs_of_local(l):
+        for d in b.defs().get(l, []):
+            if d[0] == 'stmt':
+                srcs.append(fmt_sym(b, F.sym_rvalue(d[3], 0, d[1])))
+            elif d[0] == 'call' and d[2].callee.endswith('Duration::from_millis'):
+                a = d[2].args[0]
+                if a[0] in ('mv', 'cp') and not a[1][1]:
+                    defs_of_local(a[1][0])
+                else:
+                    srcs.append(fmt_sym(b, F.sym_operand(a)))
+            else:
+                srcs.append(str(d[0]) + (':' + d[2].callee if d[0] == 'call' else ''))
+    def roots(sym):
+        if isinstance(sym, tuple):
+            if sym and sym[0] == 'place':
+                yield sym
+            elif sym and sym[0] == 'call' and sym[1].endswith('Duration::from_millis'):
+                for a in sym[2]:
+                    yield from roots(a)
+            elif sym and sym[0] in ('ref', 'cast', 'deref'):
+                yield from roots(sym[1])
+    for to in timeouts:
+        for pl in roots(to):
+            if not pl[2]:
+                defs_of_local(pl[1])
+            else:
+                srcs.append(fmt_sym(b, pl))
     bad = [x for x in srcs if not re.search(r'timeout_hint as u64|publish_request_timeout.* as u64', x)]
-    if not srcs or bad:
+    if timeouts and (not srcs or bad):
         r.fail(rule, 'expire:timeout-operand', 'the timeout compared with the elapsed time is not the request timeout hint / server publish timeout: %s' % (bad or srcs), loc=b.loc)
-    else:
+    elif timeouts:
         r.ok(rule, 'expire:timeout-operand', 'timeout operand is one of: ' + '; '.join(sorted(set(srcs))), loc=b.loc)
     r.count('timeout_gate_sites', n)
 
